@@ -994,7 +994,11 @@ class Crystal(object):
         """
         # Start with a list of possible vectors; add those that define the BZ...
         BZG = []
-        for nv in itertools.product(range(-3, 4), repeat = self.dim):
+        # every facet vector G has |G|/2 <= covering radius <= (1/2) sum_j |b_j|, and its coefficient along b_i is
+        # n_i = a_i.G/(2 pi); at least the historical range -3..3
+        Gmax = sum(np.sqrt(np.dot(self.reciplatt[:, j], self.reciplatt[:, j])) for j in range(self.dim))
+        nmax = [max(3, int(np.ceil(np.sqrt(self.metric[i, i]) * Gmax / (2 * np.pi) - 1e-8))) for i in range(self.dim)]
+        for nv in itertools.product(*[range(-n, n + 1) for n in nmax]):
             if all(n == 0 for n in nv): continue
             vec = np.dot(self.reciplatt, nv)
             if self.inBZ(vec, BZG, threshold=0): BZG.append(vec)
